@@ -17,3 +17,12 @@ contract(MDQ + "ok_to_add_code_block", props=["C14"],
                                "for i, b in enumerate(cpp_funcs))"},
          ensures=[("duplicate_counts_once", "result == (not any(b == spec for b in cpp_funcs))")],
          loops={1: dict(invariant=[("I.no_same_name_before", "all(not (isinstance(cpp_funcs[j], InjectCodeBlock_t()) and name_of(cpp_funcs[j]) == spec.name) for j in range(0, _i))")])})
+
+# ---- per-field concatenation in block order (executor._ib_fetch and its seven accessors) ---------------------------
+EXQ = "func_adl_xAOD.common.executor.executor"
+EXR = RefOf(EXQ)
+for _acc, _fld in [("body_include_files", "body_includes"), ("header_include_files", "header_includes"), ("private_members", "private_members"),
+                   ("instance_initialization", "instance_initialization"), ("ctor_lines", "ctor_lines"), ("link_libraries", "link_libraries"),
+                   ("initialize_lines", "initialize_lines")]:
+    contract(EXQ + "." + _acc, props=["C14"], params=dict(self=EXR), result=TList(Str),
+             ensures=[("own_field_in_block_order", "is_flattening(result, [b.%s for b in field(self, '_inject_blocks')])" % _fld)])
